@@ -171,7 +171,7 @@ def comment_files():
         pad = "" if c[-1] in " \n\t" else " "
         out.append((f"comment {c!r} between", f"{a}\n{c}{nl}{b}\n"))
         out.append((f"comment {c!r} after command on its line", f"{a} {c}{nl}{b}\n"))
-        out.append((f"comment {c!r} at head", f"{c}{pad}{a}\n{b}\n"))
+        out.append((f"comment {c!r} at head", f"{c}{nl if c.strip() else pad}{a}\n{b}\n"))
         out.append((f"comment {c!r} at tail", f"{a}\n{b}\n{c}"))
         out.append((f"comment {c!r} inside arguments", f"set(A {c}{pad} b)\n{b}\n"))
         out.append((f"comment {c!r} before close", f"set(A b {c}{pad})\n{b}\n"))
